@@ -150,7 +150,10 @@ def main(argv):
     rng = chk.rng(0, "faults")
     for name, script in scripts:
         for mode in modes:
-            pts = c09.enumerate_points(name, script, mode, True)
+            try:
+                pts = c09.enumerate_points(name, script, mode, True)
+            except c09.NoFaultViolation as nf:
+                chk.report(nf.key, nf.what, nf.info); continue
             seen = set()
             for (sc, k, pid, rest) in pts:
                 if (sc, k) in seen:
